@@ -981,6 +981,11 @@ func (x *Exec) step(st *State, in ssa.Instruction) {
 		st.env[i] = x.makeIface(v, i.X.Type(), i.Type())
 	case *ssa.ChangeInterface:
 		v := x.get(st, i.X)
+		if v.K == VScalar && isErrorType(i.X.Type()) && !isErrorType(i.Type()) {
+			// error (a scalar code in this model) widened to any / another interface: wrap it
+			st.env[i] = Val{K: VIface, Typ: i.Type(), Tag: IntLit(x.P.typeTag(i.X.Type())), T: v.T, Fields: []Val{v}}
+			break
+		}
 		v.Typ = i.Type()
 		st.env[i] = v
 	case *ssa.ChangeType:
@@ -1020,7 +1025,14 @@ func (x *Exec) step(st *State, in ssa.Instruction) {
 		// channels are never operated on by verified code (send/receive sit in trusted functions)
 		st.env[i] = Val{K: VOpaque, Typ: i.Type()}
 	case *ssa.Go:
-		unsupported("go statement in %s", shortFuncName(in.Parent()))
+		// "go f(args)" with a static callee: modelled as an immediate call (the call happens, with these
+		// arguments; when, and on which goroutine, is outside the model). Only what the callee does
+		// to the ghost call log / heap in program order is claimed. Listed as an assumption.
+		if i.Common().StaticCallee() == nil || i.Common().IsInvoke() {
+			unsupported("go statement with a dynamic callee in %s", shortFuncName(in.Parent()))
+		}
+		x.trust("go statement in " + shortFuncName(in.Parent()) + " modelled as an immediate call of " + shortFuncName(i.Common().StaticCallee()) + " (scheduling not modelled)")
+		x.call(st, i, i.Common())
 	case *ssa.DebugRef:
 	default:
 		unsupported("instruction %T in %s", in, shortFuncName(in.Parent()))
